@@ -962,9 +962,26 @@ def make_plan(seed, index, tier, sub):
             op['gate'] = 'use'
           elif r < 0.65:
             op['gate'] = 'hold'
-  if droppable and nthreads > 1 and grng.random() < 0.4:
+  if nthreads > 1:
+    for tp in threads:
+      for op in tp['ops']:
+        if op['op'] in ('tg', 'cv', 'cc') and grng.random() < 0.08:
+          # stall fault inside a request: the thread stops being scheduled at a random step of it
+          op['stall'] = [grng.randint(1, 400), grng.choice([150, 600, 2500])]
+  if droppable and nthreads > 1 and grng.random() < 0.5:
+    # the dropping thread requests the function first (so that a cache entry - and its eviction callback -
+    # exists), then drops it while the other threads are busy inserting entries of their own
     tp = threads[grng.randrange(nthreads)]
-    tp['ops'].insert(grng.randrange(len(tp['ops']) + 1), {'op': 'dropop', 'fid': grng.choice(droppable)})
+    # (mostly functions that are the only user of their code object: only then does the entry die with them)
+    solo = [f for f in droppable if f in (1, 10, 13, 22)]
+    fid = grng.choice(solo if solo and grng.random() < 0.8 else droppable)
+    rec, fi = grng.choice(optsets)
+    at = grng.randrange(len(tp['ops']) + 1)
+    dop = {'op': 'dropop', 'fid': fid}
+    if grng.random() < 0.7:
+      dop['stall'] = [grng.randint(1, 8), grng.choice([150, 600, 2500])]
+    tp['ops'].insert(at, dop)
+    tp['ops'].insert(at, {'op': 'tg', 'fid': fid, 'rec': rec, 'feats': fi, 'call': None})
   if sub == 'faulty':
     pts = Z['points']
     nf = rng.choice([1, 1, 2, 3])
@@ -1236,8 +1253,17 @@ class Run(object):
     e.fn = None
     e.self_obj = None
     rec['status'] = 'dropped'
-    if e.dropper:
-      e.dropper()
+    me = sim.current_thread()
+    if op.get('stall') and me is not None:
+      # stall fault: the thread is descheduled for a while at the k-th step of whatever the drop triggers
+      me.stall_at = me.npoints + op['stall'][0]
+      me.stall_len = op['stall'][1]
+    try:
+      if e.dropper:
+        e.dropper()
+    finally:
+      if me is not None:
+        me.stall_at = -1
     self.events_fired.append('dropop:%s' % e.name)
     sim.probe('drop_as_thread_step')
     sim.note('dropped:%s' % e.name)
@@ -1278,6 +1304,10 @@ class Run(object):
                                   'others_held': any(l.owner is not None for l in self.cache_locks)}
     self.inflight[tid] = op
     sim.point('op', op['fid'], i)
+    me_ = sim.current_thread()
+    if op.get('stall') and me_ is not None:
+      me_.stall_at = me_.npoints + op['stall'][0]
+      me_.stall_len = op['stall'][1]
     try:
       if gate == 'hold':
         self.gate.acquire()
@@ -1309,6 +1339,8 @@ class Run(object):
         rec['status'] = 'called'
         rec['call'] = ((o[0], common.jsonable(o[1]), common.jsonable(l)), _norm_trace(tr))
     finally:
+      if me_ is not None:
+        me_.stall_at = -1
       if held:
         self.gate.release()
       self.inflight[tid] = None
@@ -1669,6 +1701,12 @@ def shrink_candidates(plan):
         p = copy.deepcopy(plan)
         p['threads'][i]['ops'][j]['call'] = None
         out.append(('no-call-%d-%d' % (i, j), p, {}))
+  if any(o.get('stall') for t in plan['threads'] for o in t['ops']):
+    p = copy.deepcopy(plan)
+    for t in p['threads']:
+      for o in t['ops']:
+        o.pop('stall', None)
+    out.append(('no-stall', p, {}))
   if any(o.get('gate') for t in plan['threads'] for o in t['ops']):
     p = copy.deepcopy(plan)
     for t in p['threads']:
